@@ -85,6 +85,11 @@ open PyIpmi.Spec.Threads (WEv)
 (`harness/translate/threads.py`) reads it from the AST on every run (`Gen/Threads.lean`). -/
 structure Shape where
   lockBlocks : Nat                  -- `with self.transaction_lock:` blocks in `_send_and_receive`
+  oneLock : Bool                    -- ONE lock object for every caller and every target: the context expression of that
+                                    -- block is the attribute `self.transaction_lock` itself, `_send_and_receive` has no other
+                                    -- `with` statement, `transaction_lock` is assigned once in class `Rmcp` (in `__init__`,
+                                    -- `threading.Lock()`), and the class creates no other lock (a lock chosen per target /
+                                    -- per thread / per call serialises nothing between the threads the model serialises)
   incFirst : Bool                   -- the first statement executed is `self._inc_sequence_number()`: first statement of
                                     -- the function, or of the lock block when the function begins with that
   seqInLock : Bool                  -- no mention of `next_sequence_number` / `_inc_sequence_number` outside the lock
@@ -129,7 +134,8 @@ structure Shape where
 deriving DecidableEq, Repr
 
 /-- The shape the step function below hard-wires: the IPMB sequence number is bumped first and read into
-the header, one lock block (`acquire` / `idle` … `release`) holds the session
+the header, one lock block (`acquire` / `idle` … `release`) on ONE lock object shared by every caller whatever target
+it addresses (`Sys.lock` is a single cell) holds the session
 sequence bump and the packing (`ssLoad` … `ssHdr`, inside `_send_ipmi_msg`), the one transmission
 (`send`) and the reception (`recv`, reading `_q` first; the drain of the socket, if any, is inside too);
 nothing is put back into `_q`; every caller,
@@ -141,7 +147,7 @@ allocated and read inside the lock block (`seqLocked = true` with fixes/C04-2.di
 and whether the session wrapper is built by the transmission of every attempt (`perAttempt = true`, the source) or
 once before the retry loop (`false`: a retransmission repeats the session sequence number). -/
 def Shape.expected (join : Bool) (seqLocked : Bool := true) (perAttempt : Bool := true) : Shape :=
-  { lockBlocks := 1, incFirst := true, seqInLock := seqLocked, incCalls := 1, ioOutsideLock := 0, sendsInLock := 1, recvsInLock := 1,
+  { lockBlocks := 1, oneLock := true, incFirst := true, seqInLock := seqLocked, incCalls := 1, ioOutsideLock := 0, sendsInLock := 1, recvsInLock := 1,
     qGetInLock := 1, qPut := 0, packInSar := 0, packInSend := 1, sendBuildsIpmiMsg := true,
     retryLoop := true, packBeforeLoop := if perAttempt then 0 else 1, packPerAttempt := perAttempt, packIncs := 1,
     packIncGuardedByActivated := true, seqAdd := 1, seqMod := 64, keepAliveLocked := true, rawLocked := true,
